@@ -52,7 +52,9 @@ MUST_HIT = ["cat:IDENTICAL", "cat:LINEAR", "cat:SCALE-LINEAR", "cat:TEXTTABLE", 
             "tabintp:descending", "tabintp:flat", "one-sided-scale",
             "scale-linear:sign-change-across-zero", "scale-linear:plateau-monotone", "scale-linear:direct-sign-change",
             "clause:ambiguous-encode", "ratfunc:den-longer-i2p", "ratfunc:den-longer-p2i",
-            "texttable:range-inverse-zero"]
+            "texttable:range-inverse-zero", "linear:identity-coeffs-mixed-types",
+            "linear:identity-coeffs-mixed-types:LINEAR", "int-result:negative:ratfunc-i2p", "int-result:negative:ratfunc-p2i",
+            "int-result:type-checked"]
 
 
 # ---------------------------------------------------------------------------
@@ -435,6 +437,10 @@ class Judge:
                 self.fail("i2p-raises", f"convert_internal_to_physical({v!r}) raised {type(p).__name__}: {p} "
                           f"for a valid value; expected {res.describe()}", path, "i", v, exc=type(p).__name__)
                 continue
+            if res.kind == "num" and res.integer:
+                self.classes.add("int-result:type-checked")
+                if self.cat in ("RAT-FUNC", "SCALE-RAT-FUNC") and res.parts[0][1] < -1:
+                    self.classes.add("int-result:negative:ratfunc-i2p")
             if not res.admits(p):
                 self.fail("i2p-value", f"convert_internal_to_physical({v!r}) = {p!r}, expected {res.describe()}",
                           path, "i", v, mode=self._mode(res, p))
@@ -457,6 +463,8 @@ class Judge:
         fraction of (a float evaluation of) the exact value gives"""
         if res.kind != "num" or not refcompu.is_num(got) or not res.integer:
             return "other"
+        if not refcompu.is_int(got):
+            return "not-int"         # an integer-typed side returned a float (unrounded or integral-valued)
         g = F(got)
         for lo, hi, tol in res.parts:
             for e in (lo, hi):
@@ -666,6 +674,9 @@ class Judge:
                               f"scale of a SCALE-LINEAR method (not invertible), but it is declared valid and "
                               f"convert_physical_to_internal silently returns {b!r}", path, "p", p, mode="silently-encoded")
                     continue
+                if rb is not None and rb.kind == "num" and rb.integer and \
+                        self.cat in ("RAT-FUNC", "SCALE-RAT-FUNC") and rb.parts[0][1] < -1:
+                    self.classes.add("int-result:negative:ratfunc-p2i")
                 if rb is not None and not rb.admits(b):
                     self.fail("p2i-value", f"convert_physical_to_internal({p!r}) = {b!r}, expected {rb.describe()}",
                               path, "p", p, mode=self._mode(rb, b))
@@ -819,6 +830,13 @@ class Judge:
             self.classes.add("scale-linear:monotone-continuous")
         if self.cat == "SCALE-LINEAR" and self.neutral and not self.ru.odx_invertible():
             self.classes.add("scale-linear:not-invertible")
+        if self.cat in ("LINEAR", "SCALE-LINEAR"):
+            if any(sg.off == 0 and sg.fac == sg.den for sg in self.ru.segs):
+                self.classes.add("linear:identity-coeffs")
+                if _kind(self.it) != _kind(self.pt):
+                    self.classes.add("linear:identity-coeffs-mixed-types")
+                    if self.cat == "LINEAR":
+                        self.classes.add("linear:identity-coeffs-mixed-types:LINEAR")
         if self.cat == "SCALE-LINEAR" and self.neutral and len(self.ru.segs) >= 3:
             segs = self.ru.segs
             cont = all(a.hi.bounded and b.lo.bounded and a.hi.value == b.lo.value and
@@ -994,7 +1012,18 @@ def strategies():
         return st.sampled_from(["1", "1", "2", "4", "0.5", "3", "10", "-2", "0.25", "0.1"])
 
     @st.composite
-    def linear_scale(draw, it, pt, bits, lo, hi):
+    def linear_scale(draw, it, pt, bits, lo, hi, identity=None):
+        if identity is None:
+            identity = draw(st.integers(0, 7)) == 0
+        if identity:
+            # "identity-like": offset 0 and factor == denominator (1/1, 4/4, -2/-2, 0.5/0.5, 1/none)
+            pool = ["1", "1", "2", "4", "-2", "-1", "3", "8"] + ([] if pt in INT_TYPES else ["0.5", "1.0", "-0.25", "2.0"])
+            c = draw(st.sampled_from(pool))
+            sc = {"lo": lo, "hi": hi, "num": [draw(st.sampled_from(["0", "0", "-0"])) if pt in INT_TYPES
+                                              else draw(st.sampled_from(["0", "0.0", "-0.0"])), c]}
+            if F(c) != 1 or draw(st.booleans()):
+                sc["den"] = [c]
+            return sc
         off = draw(coeff(pt, st.integers(-20, 20)))
         fac = draw(coeff(pt))
         sc = {"lo": lo, "hi": hi, "num": [off, fac]}
@@ -1007,12 +1036,19 @@ def strategies():
                 sc["num"] = [off]
         return sc
 
+    mixed_pair = st.sampled_from([("A_UINT32", "A_FLOAT64"), ("A_INT32", "A_FLOAT32"), ("A_INT32", "A_FLOAT64"),
+                                  ("A_FLOAT64", "A_UINT32"), ("A_FLOAT32", "A_INT32"), ("A_FLOAT64", "A_INT32"),
+                                  ("A_UINT32", "A_FLOAT32")])
+
     @st.composite
     def linear(draw):
         it, pt, bits = draw(type_pair())
+        identity = draw(st.integers(0, 3)) == 0
+        if identity and draw(st.integers(0, 3)) > 0:
+            it, pt = draw(mixed_pair)         # int on one side, float on the other
         lo, hi = draw(interval(it, bits))
         return {"cat": "LINEAR", "it": it, "pt": pt, "bits": bits,
-                "i2p": {"scales": [draw(linear_scale(it, pt, bits, lo, hi))]}}
+                "i2p": {"scales": [draw(linear_scale(it, pt, bits, lo, hi, identity=identity))]}}
 
     @st.composite
     def breakpoints(draw, it, bits, n):
